@@ -153,7 +153,8 @@ Example C03_types_ex_tuple_self : ret_of an0 ex_tuple_self = Some TNum.
 Proof. exact ex_tuple_self_typed. Qed.
 Example C03_types_ex_match_arm_state : ret_of an0 ex_match_arm_state = Some TNum.
 Proof. exact ex_match_arm_state_typed. Qed.
-(* the real checker accepts this one (no exhaustiveness check on numbers: the lenient configuration does too): finding T6 *)
+(* typing.rs accepted this one until the repair of finding T7 (no exhaustiveness check on numbers; now `Match expression is not
+   exhaustive. Missing patterns: _`); the lenient configuration, which is an upper bound only, still lets it through *)
 Example C03_types_rejects_nonexhaustive_match :
   tc_prog an0 bad_match_nonexhaustive = None /\ ret_of (mkLenient [] [] []) bad_match_nonexhaustive = Some TNum /\
   xrun 20 bad_match_nonexhaustive [[]; []] = Stuck E_NOMATCH.
